@@ -30,6 +30,12 @@ Every rewrite below preserves the behaviour of any Python program (no assumption
   in-tuple-list  x in (a, b)                <-> x in [a, b]
   in-to-or       x in ('a', 'b')            ->  x == 'a' or x == 'b'             (string/number literals only)
   ret-ifexp      return A if c else B       ->  if c: return A / return B
+  extract        one or two consecutive top-level statements moved into a new helper; parameters are the locals they
+                 mention that are bound before, results the locals they bind that are read afterwards
+  loop-comp      x = []; for v in IT: x.append(E)   ->  x = [E for v in IT]          (v not used afterwards)
+  swap-stmts     two adjacent assignments of call-free expressions to distinct plain names that do not mention each other
+  while-true     while c: B                 ->  while True: if not c: break; B       (no else clause)
+  dict-call      {'k': v, ...}              ->  dict(k=v, ...)                       (identifier keys)
 """
 import ast
 import copy
@@ -128,6 +134,96 @@ def _immutable_literal(n):
     return False
 
 
+def _simple_assign(st):
+    return isinstance(st, ast.Assign) and len(st.targets) == 1 and isinstance(st.targets[0], ast.Name) \
+        and not any(isinstance(x, (ast.Call, ast.NamedExpr, ast.Await, ast.Yield, ast.YieldFrom, ast.Lambda, ast.ListComp, ast.SetComp, ast.DictComp, ast.GeneratorExp, ast.Subscript, ast.Attribute))
+                    for x in ast.walk(st.value))
+
+
+def _stores(nodes):
+    out = []
+    for s_ in nodes:
+        for x in ast.walk(s_):
+            if isinstance(x, ast.Name) and isinstance(x.ctx, (ast.Store, ast.Del)) and x.id not in out:
+                out.append(x.id)
+    return out
+
+
+def _extractable(fn, body, i, j):
+    """(params, results) if body[i:j] can be moved into a helper without changing behaviour, else None."""
+    block = body[i:j]
+    if not fn.args.args:
+        return None
+    for s_ in block:
+        for x in ast.walk(s_):
+            if isinstance(x, (ast.Return, ast.Yield, ast.YieldFrom, ast.Await, ast.Global, ast.Nonlocal, ast.FunctionDef, ast.AsyncFunctionDef, ast.ClassDef, ast.Lambda,
+                              ast.NamedExpr, ast.Delete, ast.ListComp, ast.SetComp, ast.DictComp, ast.GeneratorExp, ast.Import, ast.ImportFrom, ast.ExceptHandler)):
+                return None
+            if isinstance(x, ast.Name) and x.id in ("super", "locals", "vars", "__class__"):
+                return None
+    # break/continue that leave the block
+    def escapes(nodes, depth=0):
+        for n in nodes:
+            if isinstance(n, (ast.Break, ast.Continue)) and depth == 0:
+                return True
+            for f, v in ast.iter_fields(n):
+                if isinstance(v, list) and v and isinstance(v[0], ast.stmt):
+                    d = depth + (1 if isinstance(n, (ast.For, ast.While)) and f == "body" else 0)
+                    if escapes(v, d):
+                        return True
+        return False
+    if escapes(block):
+        return None
+    params = [a.arg for a in fn.args.posonlyargs + fn.args.args + fn.args.kwonlyargs]
+    if fn.args.vararg or fn.args.kwarg:
+        return None
+    local = set(params) | set(_stores([fn]))
+    before_def = set(params)
+    for s_ in body[:i]:
+        if isinstance(s_, ast.Assign):
+            for t in s_.targets:
+                for e in (t.elts if isinstance(t, (ast.Tuple, ast.List)) else [t]):
+                    if isinstance(e, ast.Name):
+                        before_def.add(e.id)
+        elif isinstance(s_, ast.With):
+            for it in s_.items:
+                if isinstance(it.optional_vars, ast.Name):
+                    before_def.add(it.optional_vars.id)
+    maybe_before = set(params) | set(_stores(body[:i]))
+    mentioned = []
+    for s_ in block:
+        for x in ast.walk(s_):
+            if isinstance(x, ast.Name) and x.id in local and x.id not in mentioned:
+                mentioned.append(x.id)
+    written = _stores(block)
+    # a local mentioned in the block that may or may not be bound before cannot be passed safely
+    for n in mentioned:
+        if n in maybe_before and n not in before_def:
+            return None
+    # a name read in the block must be bound before it or be assigned at the block's top level before any nested use: keep it simple
+    top_assigned = []
+    for s_ in block:
+        if isinstance(s_, ast.Assign):
+            for t in s_.targets:
+                if isinstance(t, ast.Name):
+                    top_assigned.append(t.id)
+    for n in mentioned:
+        if n not in before_def and n not in written:
+            return None
+    after_reads = {x.id for s_ in body[j:] for x in ast.walk(s_) if isinstance(x, ast.Name) and isinstance(x.ctx, ast.Load)}
+    # the enclosing function may be re-entered in a loop only through body (top level) - no enclosing loop at top level
+    results = [n for n in written if n in after_reads]
+    for n in results:
+        if n not in before_def and n not in top_assigned:
+            return None
+    hparams = [n for n in mentioned if n in before_def]
+    if params and params[0] in ("self", "cls") and params[0] not in hparams:
+        hparams = [params[0]] + hparams
+    elif params and params[0] in ("self", "cls"):
+        hparams = [params[0]] + [n for n in hparams if n != params[0]]
+    return hparams, results
+
+
 def _terminates(stmts):
     if not stmts:
         return False
@@ -195,6 +291,29 @@ def equivalents_of_function(src, qual, limit=None):
                 kinds.append(("in-to-or", idx))
         if isinstance(n, ast.Return) and isinstance(n.value, ast.IfExp):
             kinds.append(("ret-ifexp", idx))
+        if isinstance(n, ast.While) and not n.orelse and not (isinstance(n.test, ast.Constant)):
+            kinds.append(("while-true", idx))
+        if isinstance(n, ast.Dict) and n.keys and all(isinstance(k, ast.Constant) and isinstance(k.value, str) and k.value.isidentifier() and not __import__("keyword").iskeyword(k.value) for k in n.keys):
+            kinds.append(("dict-call", idx))
+    body0 = fn0.body[1:] if (fn0.body and isinstance(fn0.body[0], ast.Expr) and isinstance(fn0.body[0].value, ast.Constant)) else fn0.body
+    off0 = len(fn0.body) - len(body0)
+    for i in range(len(body0) - 1):
+        a, b = body0[i], body0[i + 1]
+        if _simple_assign(a) and _simple_assign(b):
+            na, nb = a.targets[0].id, b.targets[0].id
+            ra = {x.id for x in ast.walk(a.value) if isinstance(x, ast.Name)}
+            rb = {x.id for x in ast.walk(b.value) if isinstance(x, ast.Name)}
+            if na != nb and na not in rb and nb not in ra:
+                kinds.append(("swap-stmts", i + off0))
+        if isinstance(a, ast.Assign) and len(a.targets) == 1 and isinstance(a.targets[0], ast.Name) and isinstance(a.value, ast.List) and not a.value.elts \
+                and isinstance(b, ast.For) and not b.orelse and isinstance(b.target, ast.Name) and len(b.body) == 1:
+            kinds.append(("loop-comp", i + off0))
+    ex = 0
+    for i in range(len(body0)):
+        for ln in (1, 2):
+            if ex < 4 and i + ln <= len(body0) and _extractable(fn0, body0, i, i + ln) is not None and (ln == 2 or isinstance(body0[i], (ast.If, ast.For, ast.With, ast.Try, ast.While))):
+                kinds.append(("extract", (i + off0, i + off0 + ln)))
+                ex += 1
     if not any(isinstance(x, (ast.Yield, ast.YieldFrom, ast.Await)) for x in ast.walk(fn0)) and not fn0.decorator_list \
             and not any(isinstance(x, ast.Name) and x.id in ("super", "__class__") for x in ast.walk(fn0)) \
             and not fn0.args.vararg and not fn0.args.kwarg and not fn0.args.kwonlyargs and not fn0.args.posonlyargs:
@@ -235,6 +354,77 @@ def equivalents_of_function(src, qual, limit=None):
                         n.id = new
                 desc = f"local {where} renamed to {new}"
                 line = fn.lineno
+            elif kind in ("swap-stmts", "loop-comp", "extract"):
+                line = fn.lineno
+                if kind == "swap-stmts":
+                    fn.body[where], fn.body[where + 1] = fn.body[where + 1], fn.body[where]
+                    line = fn.body[where].lineno
+                    desc = "two independent adjacent assignments swapped"
+                elif kind == "loop-comp":
+                    a, b = fn.body[where], fn.body[where + 1]
+                    app = b.body[0]
+                    tname = a.targets[0].id
+                    ok = isinstance(app, ast.Expr) and isinstance(app.value, ast.Call) and isinstance(app.value.func, ast.Attribute) and app.value.func.attr == "append" \
+                        and isinstance(app.value.func.value, ast.Name) and app.value.func.value.id == tname and len(app.value.args) == 1 and not app.value.keywords
+                    conds = []
+                    if not ok and isinstance(app, ast.If) and not app.orelse and len(app.body) == 1:
+                        inner = app.body[0]
+                        ok = isinstance(inner, ast.Expr) and isinstance(inner.value, ast.Call) and isinstance(inner.value.func, ast.Attribute) and inner.value.func.attr == "append" \
+                            and isinstance(inner.value.func.value, ast.Name) and inner.value.func.value.id == tname and len(inner.value.args) == 1
+                        conds = [app.test]
+                        app = inner
+                    if not ok:
+                        continue
+                    v = b.target.id
+                    later = any(isinstance(x, ast.Name) and x.id == v for s_ in fn.body[where + 2:] for x in ast.walk(s_))
+                    mentions_t = any(isinstance(x, ast.Name) and x.id == tname for e_ in [app.value.args[0], b.iter] + conds for x in ast.walk(e_))
+                    if later or mentions_t:
+                        continue
+                    comp = ast.ListComp(elt=app.value.args[0], generators=[ast.comprehension(target=b.target, iter=b.iter, ifs=conds, is_async=0)])
+                    fn.body[where:where + 2] = [ast.Assign(targets=[ast.Name(id=tname, ctx=ast.Store())], value=comp, lineno=a.lineno)]
+                    line = a.lineno
+                    desc = "append loop written as a list comprehension"
+                else:
+                    i, j = where
+                    doc = len(fn.body) - len(fn.body[1:] if (fn.body and isinstance(fn.body[0], ast.Expr) and isinstance(fn.body[0].value, ast.Constant)) else fn.body)
+                    body = fn.body[doc:]
+                    pr = _extractable(fn, body, i - doc, j - doc)
+                    if pr is None:
+                        continue
+                    hparams, results = pr
+                    owner = None
+                    for o in ast.walk(tree):
+                        if hasattr(o, "body") and isinstance(o.body, list) and any(x is fn for x in o.body):
+                            owner = o
+                    if owner is None:
+                        continue
+                    hname = "_" + fn.name.strip("_") + "_part"
+                    if hname in used or any(isinstance(x, ast.Attribute) and x.attr == hname for x in ast.walk(tree)):
+                        continue
+                    is_method = isinstance(owner, ast.ClassDef) and hparams and hparams[0] == "self"
+                    if isinstance(owner, ast.ClassDef) and not is_method:
+                        continue
+                    block = fn.body[i:j]
+                    line = block[0].lineno
+                    ret = []
+                    if results:
+                        rv = ast.Name(id=results[0], ctx=ast.Load()) if len(results) == 1 else ast.Tuple(elts=[ast.Name(id=r, ctx=ast.Load()) for r in results], ctx=ast.Load())
+                        ret = [ast.Return(value=rv)]
+                    helper = ast.FunctionDef(name=hname, args=ast.arguments(posonlyargs=[], args=[ast.arg(arg=a) for a in hparams], vararg=None, kwonlyargs=[], kw_defaults=[],
+                                                                            kwarg=None, defaults=[]), body=block + ret, decorator_list=[], returns=None, lineno=line, type_params=[])
+                    if is_method:
+                        call = ast.Call(func=ast.Attribute(value=ast.Name(id="self", ctx=ast.Load()), attr=hname, ctx=ast.Load()),
+                                        args=[ast.Name(id=a, ctx=ast.Load()) for a in hparams[1:]], keywords=[])
+                    else:
+                        call = ast.Call(func=ast.Name(id=hname, ctx=ast.Load()), args=[ast.Name(id=a, ctx=ast.Load()) for a in hparams], keywords=[])
+                    if results:
+                        tg = ast.Name(id=results[0], ctx=ast.Store()) if len(results) == 1 else ast.Tuple(elts=[ast.Name(id=r, ctx=ast.Store()) for r in results], ctx=ast.Store())
+                        st_new = ast.Assign(targets=[tg], value=call, lineno=line)
+                    else:
+                        st_new = ast.Expr(value=call)
+                    fn.body[i:j] = [st_new]
+                    owner.body.insert(owner.body.index(fn) + (1 if is_method else 0), helper)
+                    desc = f"statements {i - doc}..{j - doc - 1} moved into the new helper {hname}({', '.join(hparams)}) -> {results}"
             else:
                 n = own[where]
                 line = getattr(n, "lineno", fn.lineno)
@@ -386,6 +576,21 @@ def equivalents_of_function(src, qual, limit=None):
                         continue
                     getattr(p, f)[i:i + 1] = [ast.If(test=n.value.test, body=[ast.Return(value=n.value.body)], orelse=[]), ast.Return(value=n.value.orelse)]
                     desc = "returned conditional expression written as if/return"
+                elif kind == "while-true":
+                    n.body = [ast.If(test=ast.UnaryOp(op=ast.Not(), operand=n.test), body=[ast.Break()], orelse=[])] + n.body
+                    n.test = ast.Constant(value=True)
+                    # `continue` in the old body re-evaluated the test: it still does (the test is the first statement)
+                    desc = "while c: written as while True with a leading break test"
+                elif kind == "dict-call":
+                    p, f, i = par[id(n)]
+                    new = ast.Call(func=ast.Name(id="dict", ctx=ast.Load()), args=[], keywords=[ast.keyword(arg=k.value, value=v) for k, v in zip(n.keys, n.values)])
+                    if "dict" in used and any(isinstance(x, ast.Name) and x.id == "dict" and isinstance(x.ctx, ast.Store) for x in ast.walk(tree)):
+                        continue
+                    if i is None:
+                        setattr(p, f, new)
+                    else:
+                        getattr(p, f)[i] = new
+                    desc = "dict literal written as a dict(...) call"
                 elif kind == "docstring":
                     fn.body.insert(0, ast.Expr(value=ast.Constant(value="Documented.")))
                     desc = "docstring added"
